@@ -34,8 +34,8 @@ structure Completed (w : World V) (net : Net V) (a : Nat) (r : CallRec V) (o : O
   /-- the exported method ran exactly once, with the call's arguments, iff the call was accepted -/
   invoked : (net.cl r.dest).invocations.filter (invKey a r.serial) =
     match check w r.dest r.path r.iface r.member r.sig with
-    | .run i _ => [{ sender := some a, serial := r.serial, path := r.path, iface := i.name, member := r.member,
-                     args := r.args }]
+    | .run i _ f => [{ sender := some a, serial := r.serial, path := r.path, iface := i.name, member := r.member,
+                       args := r.args, impl := f.id }]
     | _ => []
 
 theorem Inv.completed {w : World V} {net : Net V} (inv : Inv w net) (hq : net.Quiescent)
@@ -107,14 +107,14 @@ theorem Inv.completed {w : World V} {net : Net V} (inv : Inv w net) (hq : net.Qu
       simp only
       apply filter_eq_nil_of_countP
       rw [hinv, hfit]; rfl
-    | run i m =>
+    | run i m f =>
       simp only [AnswerFits, hck] at hfit
       obtain ⟨res, hres'⟩ := hfit
       simp only
       have h1 : (net.cl r2.dest).invocations.countP (invKey a' r2.serial) = 1 := by
         rw [hinv, hres']; rfl
       obtain ⟨iv, hiv, hivm, hivk⟩ := countP_one_filter _ _ h1
-      obtain ⟨a3, _, r3, hr3, _, i3, m3, hck3, eiv⟩ := inv.inv_ok r2.dest iv hivm
+      obtain ⟨a3, _, r3, hr3, _, i3, m3, f3, hck3, eiv⟩ := inv.inv_ok r2.dest iv hivm
       subst eiv
       simp only [invKey, Bool.and_eq_true, beq_iff_eq, Option.some.injEq] at hivk
       obtain ⟨ea3, es3⟩ := hivk
@@ -122,7 +122,7 @@ theorem Inv.completed {w : World V} {net : Net V} (inv : Inv w net) (hq : net.Qu
       have e3 : r3 = r2 := inv.serial_uniq a3 r3 r2 hr3 hr es3
       subst e3
       rw [hck] at hck3
-      injection hck3 with hi hm
-      rw [hiv, hi]
+      injection hck3 with hi hm hf
+      rw [hiv, hi, hf]
 
 end Txdbus.Net
